@@ -131,6 +131,13 @@ func (c *RecConn) log(op string, n int, err error) {
 	c.mu.Unlock()
 }
 
+// EventsCopy returns the events recorded so far.
+func (c *RecConn) EventsCopy() []ConnEvent {
+	c.mu.Lock()
+	defer c.mu.Unlock()
+	return append([]ConnEvent(nil), c.Events...)
+}
+
 func (c *RecConn) Read(p []byte) (int, error) {
 	n, err := c.Conn.Read(p)
 	if n > 0 || (err != nil && !errors.Is(err, errDeadline)) {
